@@ -63,6 +63,7 @@ def check(prog, ctx):
         outer = [t for t in apps if not any(t in u.args or any(t in w.atoms() for w in u.args) for u in apps if u is not t)]
         inst = 'Integrate:%s:%s' % (m, 'reversed' if swapped else 'ordered')
         if len(outer) != 1:
+            seen.setdefault(m, []).extend([False, True])
             ctx.undecided('C13.a', inst, f1, 'result %s is not a single integrator call on the limits (outside the understood fragment)' % str(v)[:200])
             continue
         I = outer[0]
@@ -77,7 +78,7 @@ def check(prog, ctx):
                    'for method "%s" with %s limits the result is %s*%s%s; expected sign %s and limits (%s, %s)'
                    % (m, 'reversed' if swapped else 'ordered', s, I.func.__name__.split('::')[-1], tuple(I.args[1:3]), -1 if swapped else 1, lo, hi),
                    form=str(v)[:300])
-    missing = [m for m in METHODS_1D if sorted(seen.get(m, [])) != [False, True]]
+    missing = [m for m in METHODS_1D if not ({False, True} <= set(seen.get(m, [])))]
     extra = [m for m in seen if m not in METHODS_1D]
     ctx.decide('C13.a', 'Integrate:methods', f1, not missing and not extra, 'all six method names are dispatched for both orientations',
                'method table differs: missing %s, unexpected %s' % (missing, extra))
